@@ -79,9 +79,10 @@ def e2e(V, tier, seed):
     for r in runs:
         p = subprocess.run([V.VH, "bstream-e2e"] + r, stdout=subprocess.PIPE, stderr=subprocess.PIPE, text=True, timeout=120)
         out = p.stdout.strip()
-        toks = out.split()
-        ok = ("listed-before:1,1" in toks and "listed-after:0,0" in toks and len(toks) >= 5
-              and toks[-1] == "eos:router" and toks[-2].startswith("W:[") and sum(t.startswith("eos:") for t in toks) == 1)
+        head, _, ups = out.partition(" updates:")
+        toks, ups = head.split(), ups.split()
+        ok = ("listed-before:1,1" in toks and "listed-after:0,0" in toks and len(ups) >= 2
+              and ups[-1] == "eos:router" and ups[-2].startswith("W:[") and sum(t.startswith("eos:") for t in ups) == 1)
         seen[" ".join(r)] = out[:160]
         if not ok:
             fails.append({"what": f"end-to-end connection ({' '.join(r)}): expected the router to leave the router list and the trace to end "
